@@ -553,9 +553,10 @@ func vStop(t Token, nested bool) bool {
 //@   ensures old(tokens.index) <= tokens.index
 
 // parseDeclaration: `!important` is recognised only as the last significant tokens;
-// the value slice excludes it.
+// the value slice excludes it. (Also C03: the importance of a declaration, which ranks it in the cascade,
+// is decided here and nowhere else.)
 //@ func parseDeclaration
-//@   props C06 C07
+//@   props C06 C07 C03
 //@   nopanic
 //@   requires tokens != nil && firstToken != nil
 //@   requires forall(j, 0, len(tokens.tokens), tokens.tokens[j] != nil)
